@@ -81,6 +81,11 @@ package signature
 //@ ghost func ChainSep(c Context) bool { return ufb("ctxChainSep", c) }
 //@ ghost func IsChainSepOpt(o ContextOption) bool { return ufb("optChainSep", o) }
 
+//@ func SetChainContext
+//@   props C09
+//@   ensures chainContext == Context(old(rawContext)) && len(chainContext) > 0 && len(chainContext) <= chainContextMaxSize
+//@   note whenever the chain context is configured (the function returns instead of panicking), what is stored - and then appended to every chain-separated signature context, the transaction context among them - is EXACTLY the configured string, non-empty and within the size the combined context allows: two different chain contexts never yield the same signing context (seed C09_j truncated an over-long context to its first 64 bytes instead of refusing it: chains whose contexts share that prefix accepted each other's transactions)
+
 //@ func WithChainSeparation
 //@   trusted
 //@   modifies nothing
